@@ -808,14 +808,20 @@ func (l *commitLog) Clean() error {
 		// New segments were added while cleaning. Rebase the new segments onto
 		// the cleaned ones.
 		rebase := newSegments[len(oldSegments):]
-		cleaned = l.rebaseSegments(rebase, cleaned, epochCache)
+		cleaned = l.rebaseSegments(rebase, cleaned)
 	}
 	l.segments = cleaned
 	// Update the leader epoch offset cache to account for deleted segments. If
 	// compaction ran, we need to regenerate the cache using the one returned
-	// from compaction.
+	// from compaction. That cache only knows the messages compaction scanned:
+	// leader epochs recorded since (by appends to the active segment or to
+	// segments rolled meanwhile, or by NewLeaderEpoch) are newer than anything
+	// it saw, wherever they start, so carry them over.
 	if epochCache != nil {
-		err = l.leaderEpochCache.Replace(epochCache)
+		err = epochCache.Rebase(l.leaderEpochCache, epochCache.latestOffset())
+		if err == nil {
+			err = l.leaderEpochCache.Replace(epochCache)
+		}
 	} else {
 		err = l.leaderEpochCache.ClearEarliest(l.segments[0].BaseOffset)
 	}
@@ -824,17 +830,9 @@ func (l *commitLog) Clean() error {
 }
 
 // rebaseSegments adds the segments in from to the end of the slice of segments
-// in to and adds any leader epoch offsets to the given leaderEpochCache.
-func (l *commitLog) rebaseSegments(from, to []*segment, epochCache *leaderEpochCache) []*segment {
-	to = append(to, from...)
-	// Rebase any leader epoch offsets also. We don't check the error returned
-	// here because Rebase can't return an error since epochCache is not
-	// file-backed. The epoch cache is nil if compaction didn't run, in which
-	// case skip this.
-	if epochCache != nil {
-		epochCache.Rebase(l.leaderEpochCache, from[0].BaseOffset) // nolint: errcheck
-	}
-	return to
+// in to.
+func (l *commitLog) rebaseSegments(from, to []*segment) []*segment {
+	return append(to, from...)
 }
 
 // clean returns the cleaned segments and, if compaction ran, a
